@@ -101,6 +101,10 @@ def rule_formula(ctx, repo):
             fn = dotted(n.func)
             if fn in ("matrix", "sparse", "spmatrix") and len(n.args) == 1:
                 return ev(n.args[0])
+            if fn in ("np.reshape", "np.asarray", "np.array") and n.args:      # shape bookkeeping: identity in the matrix algebra
+                return ev(n.args[0])
+            if fn == "self.solver.linsolve" and len(n.args) == 2:              # value form: returns A^-1 B
+                return ev(n.args[0]) ** -1 * ev(n.args[1])
             raise Unsupported("call %s" % fn)
         raise Unsupported(type(n).__name__)
 
